@@ -254,7 +254,7 @@ def chunk(payload):
 
 RULE = ("grammar-generated LP/MPS files (plain/.gz/.bz2, format by extension or -L) x options {-L,-O name[.gz|.bz2],-p k,-d k,-S,-P bits,-b,-B}; esolver (ASan build with -m max, "
         "plain build with default limits) must exit 0, state the certified true status, and for OPTIMAL the listed non-zero x/rc/pi/slack (zeros implied) with Value must pass the "
-        "exact optimality certificate; a basis written with -b must be accepted with -B and give the same answer; mutated files: no signal / sanitizer report; "
+        "exact optimality certificate; a basis written with -b must be accepted with -B and give the same answer; bignum LPs (900-bit data, literals of 4000-18000 digits) whose solution values outgrow any fixed buffer: every line must parse as `name = exact fraction`, no junk lines; the -b file is read back with QSread_basis and judged by QSexact_basis_optimalstatus; -O to an uncreatable path must not crash; UNDEFINED is counted, not judged; mutated files: no signal / sanitizer report; "
         "non-trivial = esolver ran to exit; distinct = hash(file, options)")
 
 
